@@ -196,6 +196,34 @@ func c08Run(t *testing.T, in c08In, rng *vrng) c08Obs {
 			}
 			cc := op.C
 			obs.Events = append(obs.Events, c08Ev{T: "mon", C: &cc})
+		case "monitor-fails":
+			// the watch loop runs a round in which the node cannot answer the confirmed-nonce query
+			// while it reports op.Pending as the account's pending nonce: nothing is learnt from it
+			stub.mu.Lock()
+			stub.confirmedErr = true
+			if op.Pending != nil {
+				stub.pending, stub.pendingErr = *op.Pending, false
+			}
+			calls := stub.nonceAtCalls
+			stub.mu.Unlock()
+			select {
+			case c.monitor.newTxAdded <- struct{}{}:
+			case <-time.After(2 * time.Second):
+			}
+			deadline := time.Now().Add(2 * time.Second)
+			for time.Now().Before(deadline) {
+				stub.mu.Lock()
+				n := stub.nonceAtCalls
+				stub.mu.Unlock()
+				if n > calls {
+					break
+				}
+				time.Sleep(200 * time.Microsecond)
+			}
+			time.Sleep(5 * time.Millisecond)
+			stub.mu.Lock()
+			stub.confirmedErr = false
+			stub.mu.Unlock()
 		case "restart":
 			c.Close()
 			// the fresh monitor starts from 0 and would re-learn the node's confirmed nonce on
@@ -224,12 +252,17 @@ func TestVerifC08(t *testing.T) {
 		return
 	}
 	u := func(x uint64) *uint64 { return &x }
-	faults := []string{"estimate", "tip", "price", "sign", "submit"}
+	faults := []string{"estimate", "tip", "price", "sign", "submit", "submit-deadline", "submit-canceled", "submit-transport"}
 	// hand-written shapes the anchors name
 	fixed := []c08In{
 		{"fresh-account-lagging", []c08Op{{T: "send", Pending: u(0)}, {T: "send", Pending: u(0)}, {T: "send", Pending: u(0)}, {T: "send", Pending: u(1)}}},
+		{"submission-ran-out-of-time-then-retry", []c08Op{{T: "send", Pending: u(0)}, {T: "send", Pending: u(1), Fault: "submit-deadline"}, {T: "send", Pending: u(1)}, {T: "send", Pending: u(2), Fault: "submit-canceled"},
+			{T: "send", Pending: u(2)}, {T: "send", Pending: u(3), Fault: "submit-transport"}, {T: "send", Pending: u(3)}}},
 		{"fail-then-retry", []c08Op{{T: "send", Pending: u(5)}, {T: "send", Pending: u(6), Fault: "submit"}, {T: "send", Pending: u(6)}, {T: "send", Pending: u(6), Fault: "sign"}, {T: "send", Pending: u(7)}}},
 		{"window-edge", []c08Op{{T: "monitor", C: 10}, {T: "send", Pending: u(1034)}, {T: "send", Pending: u(1035)}, {T: "send", Pending: u(1036)}, {T: "monitor", C: 12}, {T: "send", Pending: u(1036)}, {T: "send", Pending: u(1037)}}},
+		{"confirmed-query-fails", []c08Op{{T: "monitor", C: 5}, {T: "send", Pending: u(5)}, {T: "monitor-fails", Pending: u(1100)}, {T: "send", Pending: u(1100)}, {T: "send", Pending: u(1030)},
+			{T: "send", Pending: u(1029)}, {T: "send", Pending: u(1028)}, {T: "monitor-fails", Pending: u(5000)}, {T: "send", Pending: u(1030)}, {T: "monitor", C: 6}, {T: "send", Pending: u(1030)}, {T: "send", Pending: u(1032)}}},
+		{"confirmed-query-fails-fresh", []c08Op{{T: "monitor-fails", Pending: u(3000)}, {T: "send", Pending: u(3000)}, {T: "send", Pending: u(1024)}, {T: "send", Pending: u(1023)}, {T: "send", Pending: u(1025)}}},
 		{"window-zero-confirmed", []c08Op{{T: "send", Pending: u(1024)}, {T: "send", Pending: u(1025)}, {T: "send", Pending: u(1025)}}},
 		{"outside-tx", []c08Op{{T: "send", Pending: u(3)}, {T: "send", Pending: u(9)}, {T: "send", Pending: u(4)}, {T: "send", Pending: u(11)}}},
 		{"restart", []c08Op{{T: "send", Pending: u(3)}, {T: "send", Pending: u(3)}, {T: "restart"}, {T: "send", Pending: u(5)}, {T: "send", Pending: u(5)}}},
@@ -317,6 +350,10 @@ func TestVerifC08(t *testing.T) {
 				}
 				confirmed = c
 				ops = append(ops, c08Op{T: "monitor", C: c})
+				if rng.chance(20) { // and a round in which the confirmed-nonce query fails
+					pp := truePending + uint64(rng.intn(3000))
+					ops = append(ops, c08Op{T: "monitor-fails", Pending: &pp})
+				}
 			default:
 				ops = append(ops, c08Op{T: "restart"})
 				confirmed = 0
